@@ -17,6 +17,7 @@ type c18Scenario struct {
 	Busy       bool       `json:"busy"`
 	End        string     `json:"end"` // none | cut | disconnect | stream-error | ka-write-fails | server-close
 	Block      bool       `json:"event_callback_blocks"`
+	Reconnect  bool       `json:"reconnect_in_callback"`
 	TLS        bool       `json:"tls"`
 	FailAt     int        `json:"fail_keepalive_k,omitempty"`
 	EndAfterNs int64      `json:"end_after_ns,omitempty"`
@@ -48,6 +49,8 @@ func runC18(e *Engine, g G, o RunOpt) RunInfo {
 	sc.Busy = g.Bool("busy")
 	sc.End = []string{"none", "cut", "disconnect", "stream-error", "ka-write-fails", "server-close"}[g.Weighted("end", 2, 3, 3, 2, 4, 3)]
 	sc.Block = sc.End != "none" && g.Pct("callback-blocks", 30)
+	// ... or reconnects from within the callback, the way a StreamManager does
+	sc.Reconnect = !sc.Block && !sc.Client.WebSocket && (sc.End == "cut" || sc.End == "server-close") && g.Pct("reconnect-in-callback", 35)
 	sc.Ticks = g.Range("ticks", 1, 9)
 	if sc.End == "ka-write-fails" {
 		sc.FailAt = g.Range("failk", 1, 8)
@@ -68,6 +71,9 @@ func runC18(e *Engine, g G, o RunOpt) RunInfo {
 	var closedAt time.Duration = -1
 	var kaFailedAt time.Duration = -1
 	var live []LiveTask
+	reconnected := false
+	var t1 time.Duration = -1
+	var cli2 *End
 
 	e.Run(func() {
 		var ok bool
@@ -101,6 +107,25 @@ func runC18(e *Engine, g G, o RunOpt) RunInfo {
 				st := xmpp.VerifEventState(ev)
 				if st == xmpp.StateDisconnected || st == xmpp.StateStreamError {
 					e.Sleep(3*interval + time.Second)
+				}
+				return nil
+			}))
+		}
+		if sc.Reconnect {
+			s.W.Client.SetHandler(s.W.EventRecorder(func(ev xmpp.Event) error {
+				if xmpp.VerifEventState(ev) == xmpp.StateDisconnected && !reconnected {
+					reconnected = true
+					err := s.W.Client.Resume()
+					e.Logf("app.reconnect", "Resume from the Disconnected callback: %v", err)
+					if err == nil && len(s.Srv.Conns) == 2 {
+						t1 = e.Now()
+						c2 := s.Srv.Conns[1].Pipe.Cli
+						c2.TrackWrites = true
+						if sc.TLS {
+							c2.IsKeepalive = func(p []byte) bool { return len(p) == 23 && p[0] == 0x17 }
+						}
+						cli2 = c2
+					}
 				}
 				return nil
 			}))
@@ -181,6 +206,9 @@ func runC18(e *Engine, g G, o RunOpt) RunInfo {
 			e.Sleep(3*interval + time.Second)
 			if sc.Block {
 				e.Sleep(3*interval + 2*time.Second)
+			}
+			if sc.Reconnect {
+				e.Sleep(4 * interval)
 			}
 		}
 		live = e.LiveTasks()
@@ -266,12 +294,34 @@ func runC18(e *Engine, g G, o RunOpt) RunInfo {
 		}
 		e.Probe("c18.keepalive_write_failed")
 	}
-	if sc.End != "none" {
+	if sc.End != "none" && !sc.Reconnect {
 		for _, lt := range live {
 			if !lt.Harness && siteOf(lt) == "client.go:429" {
 				e.Violate("C18", "keepalive-goroutine-left", "keepalive goroutine still alive 3 intervals after the session ended (%s)", lt.Header)
 			}
 		}
+	}
+	if sc.Reconnect && cli2 != nil && t1 >= 0 {
+		// the re-established session is kept alive on the same schedule
+		var k2 []WriteRec
+		for _, wr := range cli2.WriteLog {
+			if wr.KA {
+				k2 = append(k2, wr)
+			}
+		}
+		for i := 1; i <= 3; i++ {
+			at := t1 + time.Duration(i)*interval
+			if i-1 >= len(k2) {
+				e.Violate("C18", "keepalive-missing-after-reconnect", "session re-established at %v from the Disconnected callback: keepalive #%d expected at %v was never written; writes on the new connection: %v", t1, i, at, kaTimes(k2))
+				break
+			}
+			if k2[i-1].At != at {
+				e.Violate("C18", "keepalive-off-schedule-after-reconnect", "session re-established at %v: keepalive #%d written at %v, expected %v", t1, i, k2[i-1].At, at)
+				break
+			}
+		}
+		// and nothing is written to the dead connection any more
+		e.Probe("c18.reconnect_in_callback")
 	}
 	if expect > 0 {
 		e.Probe("c18.ticks_observed")
